@@ -11,11 +11,11 @@ native('C02.codes.exec', ['C02', 'C18'], 'proof', None, 'aquavm-air', 'air/src/e
 native('C02.codes.farewell', ['C02', 'C06'], 'proof', None, 'aquavm-air', 'air/src/farewell_step/errors.rs', 'codes_farewell.rs',
        'verif_native_codes_farewell::code_ranges',
        what='FarewellError has the single code 30000 (finite, exhaustive)')
-native('C19.dedup', ['C19'], 'bounded', 'vectors of length <= 5 over 3 distinct strings (364 vectors)', 'aquavm-air',
+native('C19.dedup', ['C19'], 'bounded', 'vectors of length <= 5 (thorough: <= 7) over 3 distinct strings (364 / 3280 vectors)', 'aquavm-air',
        'air/src/farewell_step/outcome.rs', 'dedup.rs', 'verif_native_dedup::dedup_is_set',
        what='dedup(v): no duplicates, same element set as v')
 native('C12.compactify', ['C12', 'C13', 'C10'], 'bounded',
-       'every sequence of <= 4 operations out of {add Previous(g), add Current(g) for g in 0..=2, add New, open a new generation} (4681 sequences)',
+       'every sequence of <= 4 (thorough: <= 5) operations out of {add Previous(g), add Current(g) for g in 0..=2, add New, open a new generation} (4681 / 37449 sequences)',
        'aquavm-air', 'air/src/execution_step/value_types/stream/stream_definition.rs', 'compactify.rs',
        'verif_native_compactify::compactify_renumbers_densely_in_order',
        what='real Stream<ValueAggregate> + real TraceHandler: iter()/slice_iter() equal the abstract view of unit streams; compactify writes '
@@ -25,13 +25,13 @@ native('C01.display', ['C01'], 'bounded', 'Fold states with 0..=2 sublores of 0.
        'crates/air-lib/interpreter-data/src/executed_state/impls.rs', 'display_state.rs',
        'verif_native_display::display_is_total_on_malformed_fold',
        what='Display for ExecutedState (reached through KeeperError::NoStreamState\'s message) does not panic on a fold lore with a wrong number of descriptors (F9b)')
-native('C15.merge', ['C15'], 'bounded', 'every pair of CID vectors of length <= 3 over 3 literals (40 x 40 = 1600 pairs), one shared peer + one peer known to one side',
+native('C15.merge', ['C15'], 'bounded', 'every pair of CID vectors of length <= 3 (thorough: <= 4) over 3 literals (1600 / 14641 pairs), one shared peer + one peer known to one side',
        'air-interpreter-data', 'crates/air-lib/interpreter-data/src/interpreter_data/verification.rs', 'multiset_merge.rs',
        'verif_native_multiset::merge_keeps_the_larger_multiset_or_rejects',
        what='real HashMap code: to_count_map = multiset of its argument (the link assumed by unit multisubset); is_multisubset <=> multiset '
             'inclusion; DataVerifier::merge = Err(MergeMismatch) <=> neither multiset contains the other, else the stored signature is the one '
             'that came with the larger multiset, and peers known to one side only are kept')
-native('C13.cursor', ['C13'], 'bounded', 'initial stream of <= 3 values over {previous(0), previous(1), current(0), current(1)}, then <= 3 fold iterations appending 0..=2 new values each',
+native('C13.cursor', ['C13'], 'bounded', 'initial stream of <= 3 (thorough: <= 4) values over {previous(0), previous(1), current(0), current(1)}, then <= 3 (thorough: <= 4) fold iterations appending 0..=2 new values each',
        'aquavm-air', 'air/src/execution_step/value_types/stream/recursive_stream.rs', 'cursor.rs',
        'verif_native_cursor::fold_visits_each_value_once',
        what='RecursiveStreamCursor::{met_fold_start, met_iteration_end} on the real Stream: the generations handed to the fold contain every stream value exactly once, including values appended while the fold runs')
